@@ -40,18 +40,25 @@ def run_pair(cx, name, side_a, side_b, rel_head, rel_exit, ctr, pre, lemmas=(), 
         if kx == ky == ('head',):
             ea, eb = x.value.env, y.value.env
             sub = {ya.a[0]: ea['permeate_composition'].f['p'], yb.a[0]: eb['permeate_composition'].f['p'], da.a[0]: lift(ea['d']), db.a[0]: lift(eb['d'])}
-            cx.ob("%s.preserve.%d" % (name, n), hy, subst(rel_head, sub), lemmas=lemmas, function=CPF, statement="relational invariant preserved by one iteration of both runs"); n += 1
+            cx.ob("%s.preserve.%d" % (name, n), hy, subst(rel_head, sub), lemmas=lemmas, function=CPF, statement="relational invariant preserved by one iteration of both runs", inductive=True); n += 1
             if 'iterations' in ea and 'iterations' in eb:
-                cx.ob("%s.preserve.%d.counter" % (name, n), hy, eq(lift(ea['iterations']), lift(eb['iterations'])), function=CPF); n += 1
+                cx.ob("%s.preserve.%d.counter" % (name, n), hy, eq(lift(ea['iterations']), lift(eb['iterations'])), function=CPF, inductive=True); n += 1
             pairs += 1
         elif kx == ky == ('return',):
-            cx.ob("%s.exit.%d" % (name, n), hy, rel_exit(x.value, y.value), lemmas=lemmas, function=CPF, statement="output relation at loop exit"); n += 1
-            cx.cover("%s.exit.%d" % (name, n), hy, lemmas=lemmas); n += 1
+            cx.ob("%s.exit.%d" % (name, n), hy, rel_exit(x.value, y.value), lemmas=lemmas, function=CPF, statement="output relation at loop exit", inductive=True); n += 1
+            if feasible(hy): cx.cover("%s.exit.%d" % (name, n), hy, lemmas=lemmas)
+            n += 1
             pairs += 1
         elif kx != ky:
-            cx.ob("%s.step.%d.control-agreement" % (name, n), hy, FALSE, lemmas=lemmas, function=CPF, statement="both runs take the same control path (%s vs %s infeasible)" % (kx, ky)); n += 1
+            cx.ob("%s.step.%d.control-agreement" % (name, n), hy, FALSE, lemmas=lemmas, function=CPF, inductive=True, statement="both runs take the same control path (%s vs %s infeasible)" % (kx, ky)); n += 1
     cx.ob("%s.pairs" % name, [], blit(pairs >= 2), kind='paths', function=CPF)
     return n
+
+
+def feasible(hy):
+    from ..symex import z3_check
+    import z3
+    return z3_check(hy, 3000) != z3.unsat
 
 
 def scale_lemma(cx, ctr):
